@@ -126,6 +126,9 @@ class Scratch:
         return p
 
     def close(self):
+        if os.environ.get("VERIF_KEEP"):      # debugging aid: keep the scratch directory of this run
+            print(f"scratch kept: {self.path}", file=sys.stderr)
+            return
         shutil.rmtree(self.path, ignore_errors=True)
 
 
